@@ -65,7 +65,12 @@ def post(tier, seed, cov, result):
 
 CHECK = Check(
     "C15",
-    streams=[emit_stream("c15", drv="c15")],
+    # third sentence of the property (the reference GetTo returns is the address of the live element): the cases of the Get
+    # model's stream that end on such a path (tag mustlive) - prediction by Model/Get.v, demand by Spec/GetSpec.v, theorems
+    # C15_alias_is_live / C15_alias_is_the_element; the harness compares the returned address with native navigation
+    streams=[emit_stream("c15", drv="c15"),
+             emit_stream("c01", drv="c01", select=lambda tags: "mustlive" in tags.split(","),
+                         descr="Get/GetTo on paths of struct fields, non-nil pointers and struct-slice indices: the live element")],
     post=post,
     rule=("every path made only of struct fields, non-nil pointers and struct-slice indices (Spec/GetSpec.v live_loc) on every value "
           "variant of every emit unit: testing.AllocsPerRun of GetTo, Compare, Length, Capacity, DeepEqual and SetWithBuffer (own-type "
